@@ -656,7 +656,48 @@ fn eval_config(ctx: &Ctx, cfg: &Config) -> Eval {
 			handoff.push(r);
 		}
 	}
+	// a finished filter: `finish()` drops the builders, after which `add_file` is documented
+	// to do nothing — the verdicts must stay those of the files loaded before
+	let mut after_finish: Option<(Vec<bool>, Vec<bool>)> = None;
+	// (only where the last file's directory already has files: a directory the filter has not
+	// seen yet still gets a fresh builder)
+	if cfg.files.len() >= 2 && cfg.files[..cfg.files.len() - 1].iter().any(|f| f.site == cfg.files[cfg.files.len() - 1].site) {
+		let n1 = cfg.files.len() - 1;
+		let r = catch_unwind(AssertUnwindSafe(|| {
+			ctx.rt.block_on(async {
+				let a = IgnoreFilter::new(&ctx.origin, &real[..n1]).await.map_err(|e| e.to_string())?;
+				let mut b = IgnoreFilter::new(&ctx.origin, &real[..n1]).await.map_err(|e| e.to_string())?;
+				b.finish();
+				let _ = b.add_file(&real[n1]).await;
+				Ok::<_, String>((IgnoreFilterer(a), IgnoreFilterer(b)))
+			})
+		}));
+		if let Ok(Ok((a, b))) = r {
+			let va = observe(&a, &ctx.probes, &mut ev.evals);
+			let vb = observe(&b, &ctx.probes, &mut ev.evals);
+			after_finish = Some((va, vb));
+		}
+	}
 	remove_files(&real);
+	if let Some((va, vb)) = &after_finish {
+		if let Some(ei) = (0..va.len()).find(|i| va[*i] != vb[*i]) {
+			let (pi, obs) = ents[ei];
+			let p = &ctx.probes[pi];
+			ev.viols.push(Viol {
+				key: "C03/add_file-after-finish-changes-verdicts".into(),
+				detail: format!(
+					"files {} ; the filter built from all but the last file says ignored={} for {} ({obs}); after finish() + add_file(last file) it says ignored={}",
+					cfg.json(),
+					va[ei],
+					p.rel,
+					vb[ei]
+				),
+				probe: pi,
+				cons: "new[..n-1]+finish+add_file".into(),
+				observable: obs,
+			});
+		}
+	}
 	{
 		// entry index of each probe's check_event observable
 		let ev_entry: Vec<usize> = ents.iter().enumerate().filter(|(_, (_, o))| *o == "check_event").map(|(ei, _)| ei).collect();
